@@ -3,6 +3,7 @@ package c05
 import (
 	"fmt"
 	"hash/fnv"
+	"reflect"
 	"runtime"
 	"sort"
 	"strings"
@@ -113,6 +114,21 @@ func recView(rs []isaacstates.VerifRecord) []string {
 	out := make([]string, len(rs))
 	for i, r := range rs {
 		out[i] = fmt.Sprintf("key=%q ptr=%x sp=%s sc=%v finished=%v voted=%d", r.Key, r.Ptr, r.StagePoint, r.IsSuffrageConfirm, r.Finished, len(r.Voted))
+	}
+	return out
+}
+
+// recContent lists the per-node content of a record; Expels and VPs are read
+// by name so that the monitor also builds against a hook without them.
+func recContent(rec isaacstates.VerifRecord) map[string][]string {
+	out := map[string][]string{"voted": rec.Voted, "ballots": rec.Ballots}
+	v := reflect.ValueOf(rec)
+	for name, what := range map[string]string{"Expels": "expels", "VPs": "voteproofs"} {
+		if f := v.FieldByName(name); f.IsValid() && f.Kind() == reflect.Slice {
+			for i := 0; i < f.Len(); i++ {
+				out[what] = append(out[what], f.Index(i).String())
+			}
+		}
 	}
 	return out
 }
@@ -525,6 +541,26 @@ func (m *caseMon) judge(es []bbrig.Emission) int {
 				inP++
 			}
 		}
+		if w, ok := vp.(base.HasExpels); ok && len(w.Expels()) > 0 {
+			// the expels of a counted voteproof were carried by a ballot voted at
+			// that very point (plain or suffrage-confirm record)
+			carried := map[string]bool{}
+			for _, acc := range []map[string]*bbrig.SFInfo{accP, accS} {
+				for _, si := range acc {
+					for _, h := range si.ExpelFacts {
+						carried[h] = true
+					}
+				}
+			}
+			for _, op := range w.Expels() {
+				if !carried[op.Fact().Hash().String()] {
+					m.violation("isolation:voteproof-expels-not-voted-at-its-point",
+						fmt.Sprintf("voteproof for %s carries an expel of %s which no ballot accepted for that point carried", vp.Point(), op.ExpelFact().Node()),
+						map[string]any{"voteproof_signfacts": len(vp.SignFacts()), "voteproof_type": fmt.Sprintf("%T", vp)})
+					return counted
+				}
+			}
+		}
 		if inP > 0 && inS > 0 {
 			m.violation("isolation:voteproof-mixes-plain-and-suffrage-confirm-records",
 				fmt.Sprintf("voteproof for %s holds %d plain and %d suffrage-confirm sign facts", vp.Point(), inP, inS), nil)
@@ -644,10 +680,42 @@ func runSingle(r *vlib.Run, b built) (cleanups int) {
 			if isVote && !lastBefore.IsZero() && !lastBefore.Before(st.SP, st.IsSC) {
 				r.Count("stale_ballots_for_passed_points", 1)
 			}
+			// what the model says about this vote, before it is cast
+			var mustAccept bool
+			if isVote && st.Clean && admitted {
+				mustAccept = true
+				for _, rec := range m.d.Box.VerifRecords() {
+					if rec.Key == bbrig.SPKey(st.SP, st.IsSC) && rec.Finished {
+						mustAccept = false // already decided
+					}
+				}
+				for _, si := range m.d.Accepted(st.SP, st.IsSC) {
+					if si.Node == st.Node {
+						mustAccept = false // the node has a vote there already
+					}
+				}
+			}
+			var res bbrig.StepResult
 			r.Guard("ballotbox:"+st.Op, map[string]any{"case": m.cp, "step": st.Desc}, func() {
-				_ = m.d.Do(0, st)
+				res = m.d.Do(0, st)
 			})
 			m.settle()
+			if mustAccept {
+				r.Count("clean_votes_judged", 1)
+				la := m.d.Box.LastPoint()
+				decided := false // the ticker may have decided the record meanwhile (held draw)
+				for _, rec := range m.d.Box.VerifRecords() {
+					if rec.Key == bbrig.SPKey(st.SP, st.IsSC) && rec.Finished {
+						decided = true
+					}
+				}
+				if !res.Voted && res.Err == nil && !decided && (la.IsZero() || la.Before(st.SP, st.IsSC)) {
+					m.violation("isolation:clean-vote-refused",
+						fmt.Sprintf("step %q: a member's first ballot for %s (right key, valid or no expels, point admitted by the last point %s, record not decided) was refused", st.Desc, st.SP, lastBefore.StagePoint),
+						map[string]any{"live_records": recView(m.d.Box.VerifRecords())})
+					continue
+				}
+			}
 			_ = m.d.Box.Count()
 			m.judge(m.d.Drain())
 			if m.aborted.Load() {
@@ -664,6 +732,22 @@ func runSingle(r *vlib.Run, b built) (cleanups int) {
 						continue
 					}
 					r.Count("new_records_checked", 1)
+					if isVote && rec.Key == bbrig.SPKey(st.SP, st.IsSC) {
+						// a record starts empty: right after the step that created
+						// it, it holds nothing of any node but the voter
+						for what, nodes := range recContent(rec) {
+							for _, nd := range nodes {
+								if nd != st.Node {
+									m.violation("structure:new-record-not-empty:"+what,
+										fmt.Sprintf("after step %q the new record of key %q already holds %s of %s", st.Desc, rec.Key, what, nd),
+										map[string]any{"live_records": recView(recs)})
+								}
+							}
+						}
+						if m.aborted.Load() {
+							break
+						}
+					}
 					if admitted && rec.Key == bbrig.SPKey(st.SP, st.IsSC) {
 						m.mu.Lock()
 						m.keyOpens[rec.Key]++
@@ -851,7 +935,17 @@ func TestC05(t *testing.T) {
 		}
 		b := cases1[i]
 		r.Count("rig_invalid_ballots_dropped", len(b.inv))
+		// every other case on one P: sync.Pool then hands the record released
+		// last straight back to the next stage point
+		prevProcs := 0
+		if i%2 == 0 {
+			prevProcs = runtime.GOMAXPROCS(1)
+			r.Count("cases_single_on_one_P", 1)
+		}
 		c := runSingle(r, b)
+		if prevProcs > 0 {
+			runtime.GOMAXPROCS(prevProcs)
+		}
 		fp := fmt.Sprintf("single/%d/%s/%v/%s", b.cp.N, b.cp.Threshold, b.cp.LocalIn, scriptHash(b.steps))
 		if c > 0 {
 			r.Case(fp)
